@@ -31,6 +31,7 @@
 package c06
 
 import (
+	"net"
 	"context"
 	"encoding/json"
 	"errors"
@@ -210,6 +211,7 @@ type env struct {
 	cancels       int
 	answered      int
 	frozenAnswers int
+	errKind       int // kind of the next injected fetch error (drawn by the script)
 	persistedSeen int
 	dlv           []*delivered
 	rootCtx       context.Context
@@ -380,6 +382,17 @@ func (e *env) dropDelivered(d *delivered) {
 // makeAnswer computes the answer from the source chain as it is NOW (caller holds the lock).
 func (e *env) makeAnswer(ctx context.Context, kind reqKind, n uint64, how string, tm *tamper, stale *core.Header, wr *wrongAns) answer {
 	if how == "err" {
+		// the KIND of the failure is drawn by the script (errKind): a transport error, a request that ran into the client's
+		// time-out or was aborted (errors matching context.DeadlineExceeded / context.Canceled while the stream's own context is
+		// alive), a net.Error time-out
+		switch e.errKind {
+		case 1:
+			return answer{err: fmt.Errorf("c06: get block: Post \"feeder\": %w", context.DeadlineExceeded)}
+		case 2:
+			return answer{err: fmt.Errorf("c06: get block: request aborted: %w", context.Canceled)}
+		case 3:
+			return answer{err: &net.DNSError{Err: "i/o timeout", Name: "feeder", IsTimeout: true}}
+		}
 		return answer{err: errInjected}
 	}
 	if kind == kBlock && how == "wrong" && wr != nil {
@@ -1367,7 +1380,7 @@ func TestRaceSyncConvergesUnderScriptedSource(t *testing.T) {
 	defer runtime.GOMAXPROCS(runtime.GOMAXPROCS(0))
 	known := stats.Known(kfRevert)
 	stats.Check(t, stats.Budget{Quick: 45, Thorough: 450},
-		"real Synchronizer+Blockchain (either backend, GOMAXPROCS 2-4 => 1-4 fetchers, node pre-loaded with 0..all blocks) against a gated DataSource; rapid script of 5-50 steps: answer any parked request (ok of the CURRENT chain / injected error / one of 11 corruptions / stale or lagging head / for block requests, 18% (32% above the source tip), a WRONG-BUT-VALID answer = a genuine block that is not the one asked for, kind drawn uniformly among the available ones: the node's head, a held block below it, a canonical block of a lower height not held / of a higher height, a genuine abandoned-fork block of the requested / of another height, the requested block with the genuine state update (+classes) of another block) or mutate the source (extend 1-3, reorg of any depth incl. genesis, shorten), or arm a hold (the next store step blocks in the public listener hook OnSyncStepDone(OpStore) after its commit, before its notifications) / release it; while a step is held the script goes on answering and mutating, with a bias towards reorgs at or just below the held height that leave the source as long as the node (+-1); then frozen source, convergence decided by request count; oracles over the plugin/listener/feed history incl. the announced chain replayed from both feeds (made lossless by waiting for the readers in the plugin call); non-trivial = reorg or shorten lands while >=1 request is parked or at/below a held store step, or a fetch error answered when remote height = local height, or a corrupted block served, or a wrong-but-valid block served",
+		"real Synchronizer+Blockchain (either backend, GOMAXPROCS 2-4 => 1-4 fetchers, node pre-loaded with 0..all blocks) against a gated DataSource; rapid script of 5-50 steps: answer any parked request (ok of the CURRENT chain / injected error of a drawn kind: generic, wrapped context.DeadlineExceeded, wrapped context.Canceled, net time-out - while the stream context is alive / one of 11 corruptions / stale or lagging head / for block requests, 18% (32% above the source tip), a WRONG-BUT-VALID answer = a genuine block that is not the one asked for, kind drawn uniformly among the available ones: the node's head, a held block below it, a canonical block of a lower height not held / of a higher height, a genuine abandoned-fork block of the requested / of another height, the requested block with the genuine state update (+classes) of another block) or mutate the source (extend 1-3, reorg of any depth incl. genesis, shorten), or arm a hold (the next store step blocks in the public listener hook OnSyncStepDone(OpStore) after its commit, before its notifications) / release it; while a step is held the script goes on answering and mutating, with a bias towards reorgs at or just below the held height that leave the source as long as the node (+-1); then frozen source, convergence decided by request count; oracles over the plugin/listener/feed history incl. the announced chain replayed from both feeds (made lossless by waiting for the readers in the plugin call); non-trivial = reorg or shorten lands while >=1 request is parked or at/below a held store step, or a fetch error answered when remote height = local height, or a corrupted block served, or a wrong-but-valid block served",
 		func(rt *rapid.T, c *stats.Case) { runCase(rt, c, known) })
 }
 
@@ -1604,6 +1617,13 @@ func runCase(rt *rapid.T, c *stats.Case, known bool) {
 			c.Label("answer-" + string(p.kind) + "-" + how)
 			if len(v.pending) > 1 && p.id != v.pending[0].id {
 				c.Label("answered-out-of-order")
+			}
+			if how == "err" {
+				ek := rapid.SampledFrom([]int{0, 0, 1, 1, 2, 3}).Draw(rt, "errKind")
+				e.mu.Lock()
+				e.errKind = ek
+				e.mu.Unlock()
+				c.Labelf("fetch-error-kind:%s", []string{"generic", "deadline-exceeded", "canceled", "net-timeout"}[ek])
 			}
 			prev, _ = e.poll()
 			if !e.answerReqW(p.id, how, tm, stale, wr) {
